@@ -178,7 +178,10 @@ CLAIMS.update({
         technique="Lean 4: decided lost-wake-up witness + theorem that a tick reporting 'running' leaves the flag armed; replay with the run parked at run.end",
         text="The property is false for the code (finding K2, not repaired): C13_lost_wakeup_witness decides the schedule in the model and the harness replays it on the real Nucleo "
              "by parking the run at the run.end yield point (tick times out, re-arms, reports running; the run ends with zero notify calls) - reported as KNOWN-FINDING. Proved: "
-             "whenever tick returns running, should_notify is armed when it returns, and a run that reads an armed flag notifies. Every notify call of every history is predicted by "
+             "whenever tick returns running, should_notify is armed when it returns, and a run that reads an armed flag notifies; over every history (companion file C13_History): "
+             "whenever a run is in flight between ticks the flag is armed (C13_armed_between_ticks), a run notifies exactly when it was not cancelled and read a true flag "
+             "(run_notifies_iff), hence a run that reads the flag while no tick is executing and is not cancelled does notify (C13_notified_outside_ticks) - which pins the defect "
+             "to the window inside a tick between clearing and re-arming the flag. Every notify call of every history is predicted by "
              "the model (pushes, extends and runs), so any other lost or spurious notification is a violation.",
         note=NU_NOTE),
     "C19": dict(
